@@ -14,8 +14,9 @@
     SHA-256 / HMAC are the executable functions; nothing is assumed about them. *)
 From Acra Require Import Lib.Bytes Lib.Outcome Lib.Sha256 Gen.AuditLogConsts Model.AuditLog
   Model.AuditLogJsonNum Model.AuditLogJson
+  Model.AuditLogJsonCanon Gen.AuditLogCanon
   Proofs.AuditLogCrypto Proofs.AuditLogParse Proofs.AuditLog Proofs.AuditLogJsonMap Proofs.AuditLogJson
-  Proofs.AuditLogJsonWitness.
+  Proofs.AuditLogJsonWitness Proofs.AuditLogJsonInj Proofs.AuditLogJsonInjWitness.
 From Acra Require Model.RunAuditLogJson.
 
 (** every history of formatted entries (any JSON values: numbers of any size and layout, nested objects
@@ -133,6 +134,107 @@ Theorem C20_json_delimiter_ambiguity_refuted :
     json_verifier K (WLine w' :: skipn 1 (wire_lines outs)) = VAccept.
 Proof. exact json_delimiter_ambiguity_refuted. Qed.
 Print Assumptions C20_json_delimiter_ambiguity_refuted.
+
+(** ... and OUTSIDE that finding it is injective, types included.  For all top-level maps the decoder of the
+    code delivers (float64 numbers; [w_ok]: what is true of every text Go's tokenizer hands over) whose member
+    NAMES do not contain the `delimiter` token — the exact side condition of json-delimiter-ambiguity; values may
+    contain it, at any depth —: equal canonical bytes, equal maps.  "123" and 123, "false" and false, "null" and
+    null, an object and the string of its rendering, one member and two all get different authenticated bytes:
+    json.Marshal is a prefix code whose first byte tells the type, strings end at the unescaped quote
+    (proved from the generated escape table), numbers are read back by the decoder, and a name without the
+    token ends at the first token because the token has no border ([border_free], computed). *)
+Theorem C20_json_canonical_injective_on_typed_values :
+  forall (w1 w2 : wv) (m1 m2 : list (bytes * jv)),
+  w_ok false w1 = true -> w_ok false w2 = true ->
+  decode_top false w1 = Some m1 -> decode_top false w2 = Some m2 ->
+  names_free m1 = true -> names_free m2 = true ->
+  conv_b m1 = conv_b m2 -> m1 = m2.
+Proof. exact json_canonical_injective_float64. Qed.
+Print Assumptions C20_json_canonical_injective_on_typed_values.
+
+(** the same for either decoder: with json.Number the literals have to be number-shaped ([nsh_m]: what the
+    tokenizer guarantees; implied by [w_ok] for float64) *)
+Theorem C20_json_canonical_injective_any_decoder :
+  forall (un : bool) (w1 w2 : wv) (m1 m2 : list (bytes * jv)),
+  w_ok un w1 = true -> w_ok un w2 = true -> decode_top un w1 = Some m1 -> decode_top un w2 = Some m2 ->
+  nsh_m m1 = true -> nsh_m m2 = true -> names_free m1 = true -> names_free m2 = true ->
+  conv_b m1 = conv_b m2 -> m1 = m2.
+Proof. exact json_canonical_injective. Qed.
+Print Assumptions C20_json_canonical_injective_any_decoder.
+
+(** hence, for the chain: an edited line w' in the place of an honest entry x (field map mx, names without the
+    token) is reported no later than at x's successor, or it decodes to x's OWN field map — nothing a reader
+    of the log sees was changed —, or one of ITS names spells the token (the recorded finding), or SHA-256
+    collides *)
+Theorem C20_json_edited_entry_detected_or_same_map :
+  forall K st i (xw w' : wv) (mx : list (bytes * jv)) (px py : parsed) (R : list pres) c yb,
+  v_calc st = c -> length (ck c) = 32 ->
+  w_ok false xw = true -> decode_top false xw = Some mx -> names_free mx = true ->
+  w_ok false w' = true -> wline_pres false (WLine w') = POk px -> p_new px = false ->
+  p_new py = false -> p_raw py = yb -> p_integ py = fst (fst (calc_step (snd (calc_step c (conv_b mx))) yb)) ->
+  detected_by (verify_pres K st i (wline_pres false (WLine w') :: POk py :: R)) (S i)
+  \/ (exists m', decode_top false w' = Some m' /\
+        (adel AL_INTEGRITY_KEY m' = mx \/ names_free (adel AL_INTEGRITY_KEY m') = false))
+  \/ sha_collision.
+Proof. exact json_edited_entry_detected_or_same_map. Qed.
+Print Assumptions C20_json_edited_entry_detected_or_same_map.
+
+(** the obligation the running code has to meet: the layout of the authenticated bytes, PROBED on every run
+    (Gen/AuditLogCanon.v: JSONLogParser.ParseEntry on a marker entry), is the modelled one — the three
+    separators are the delimiter token and top-level STRING values are marshalled like every other value ... *)
+Theorem C20_json_canonical_layout_as_modelled :
+  AL_JSON_CANON_PRE = AL_JSON_DELIM /\ AL_JSON_CANON_MID = AL_JSON_DELIM /\ AL_JSON_CANON_POST = AL_JSON_DELIM /\
+  AL_JSON_CANON_STRING_QUOTED = true.
+Proof. exact json_canon_layout_spec. Qed.
+Print Assumptions C20_json_canonical_layout_as_modelled.
+
+(** ... and it is needed: with top-level strings authenticated as their RAW bytes (a "fast path" in getBytes,
+    seeded change m60) the statement of C20_json_canonical_injective_on_typed_values is false.  Three pairs of
+    well-formed maps with token-free names, different, with the same canonical bytes under [conv_raw]:
+    {"granted":"false","unixTime":"1790176222.319"} / {"granted":false,"unixTime":1790176222.319} (retyping),
+    {"msg":"transfer approved<D><D>note<D>rolled back"} / {"msg":"transfer approved","note":"rolled back"}
+    (a member split off), {"v":"{\"a\":1}"} / {"v":{"a":1}} (an object flattened); [conv_b] separates each.
+    By C20_json_edited_entry_detected such a retyped line verifies in the place of the original. *)
+Theorem C20_json_raw_string_canonical_refuted :
+  (WFM false m_strings /\ WFM false m_typed /\ names_free m_strings = true /\ names_free m_typed = true /\
+   m_strings <> m_typed /\ conv_raw m_strings = conv_raw m_typed /\ conv_b m_strings <> conv_b m_typed) /\
+  (WFM false m_one /\ WFM false m_two /\ names_free m_one = true /\ names_free m_two = true /\
+   m_one <> m_two /\ conv_raw m_one = conv_raw m_two /\ conv_b m_one <> conv_b m_two) /\
+  (WFM false m_text /\ WFM false m_obj /\ names_free m_text = true /\ names_free m_obj = true /\
+   m_text <> m_obj /\ conv_raw m_text = conv_raw m_obj /\ conv_b m_text <> conv_b m_obj).
+Proof. exact conv_raw_not_injective. Qed.
+Print Assumptions C20_json_raw_string_canonical_refuted.
+
+(** ... end to end: hook, writer, parser and verifier of the model taken over the raw-string form
+    ([write_json_with] / [verify_json_with] with [conv_raw]; over [conv_b] they ARE the modelled path, last
+    statement).  An honest log; its first line with "granted":"false" -> false and
+    "unixTime":"1790176222.319" -> 1790176222.319, the integrity value kept: a CHANGED protected entry that passes
+    verification with the correct key.  The same edit of the same history over the modelled form is reported at
+    the edited line. *)
+Theorem C20_json_raw_string_retype_refuted :
+  verify_json_with conv_raw false jK (wire_lines out_raw) = VAccept /\
+  verify_json_with conv_raw false jK (WLine line_raw_retyped :: skipn 1 (wire_lines out_raw)) = VAccept /\
+  decode_top false line_raw_retyped <> decode_top false (to_wire (JObj (nth 0 out_raw []))) /\
+  w_ok false line_raw_retyped = true /\
+  verify_json_b false jK (wire_lines out_mod) = VAccept /\
+  verify_json_b false jK (WLine line_mod_retyped :: skipn 1 (wire_lines out_mod)) = VFail 0 C_MISMATCH.
+Proof. exact json_raw_string_retype_accepted. Qed.
+Print Assumptions C20_json_raw_string_retype_refuted.
+
+Theorem C20_json_path_with_modelled_form :
+  (forall un c w, json_post_with conv_b un c w = json_post_b un c w) /\
+  (forall un evs c, write_json_with conv_b un c evs = write_json_b un c evs) /\
+  (forall un K ls, verify_json_with conv_b un K ls = verify_json_b un K ls).
+Proof. exact (conj json_post_with_conv_b (conj write_json_with_conv_b verify_json_with_conv_b)). Qed.
+Print Assumptions C20_json_path_with_modelled_form.
+
+(** non-vacuity of the injectivity theorem: two different texts (member order, 1.0 / 1, 1e3 / 1000, a repeated
+    name, a nested member NAMED delimiter) that meet every premise *)
+Example C20_json_nonvacuous_injective :
+  w_inj_1 <> w_inj_2 /\ w_ok false w_inj_1 = true /\ w_ok false w_inj_2 = true /\
+  decode_top false w_inj_1 = Some m_inj_1 /\ decode_top false w_inj_2 = Some m_inj_2 /\
+  names_free m_inj_1 = true /\ names_free m_inj_2 = true /\ conv_b m_inj_1 = conv_b m_inj_2 /\ List.length m_inj_1 = 3.
+Proof. exact json_canonical_injective_example. Qed.
 
 (** known finding json-reserved-field at byte level (the boundary of [entry_ok]) *)
 Theorem C20_json_reserved_field_bytes_refuted :
